@@ -443,29 +443,64 @@ def clause6_slots(ctx, P, cg):
             eq_gate = gate
             if not gate:
                 break
-    # (a') the count is produced by the same skip predicate as the fill: number_of_matchers computed by a counting
-    # function that the fill loop also uses
+    # (a') count and fill are controlled by the same option predicate: the matcher count handed to alloc_fetch is a loop
+    # counter whose increment is guarded by a call of the same predicate function that guards create_matcher in the fill loop
     cf = P.fn("fetch.c:create_fetch")
     same_pred = False
-    cnt_calls = [c for c in cf.calls() if c.callee and P.srcname_of(c.callee) not in ("cJSON_GetArraySize",)]
-    fill_skip = {P.srcname_of(c.callee) for c in am.calls() if c.callee} - {"create_matcher", "free_matcher"}
-    count_src = set()
+
+    def guard_callees(f, block):
+        out = set()
+        for (atom, pol) in Q.guards_of(P, f, block):
+            for x in Q.subterms(atom):
+                if x[0] == "call":
+                    out.add((x[1], pol))
+        return out
+    fill_guards = set()
+    for c in am.calls("create_matcher"):
+        fill_guards |= guard_callees(am, c.block)
+    def counter_guarded(f, v):
+        seen = set()
+        st = [v]
+        hit = False
+        while st:
+            x = st.pop()
+            if not isinstance(x, int) or x in seen or x < f.nparams:
+                continue
+            seen.add(x)
+            ins = f.insts[x]
+            if ins.op == "phi":
+                st.extend(P.strip(f, y) for y, _ in ins.inc)
+            elif ins.op == "add" and P.const_int(ins.a[1]) == 1:
+                if guard_callees(f, ins.block) & fill_guards:
+                    hit = True
+                st.append(P.strip(f, ins.a[0]))
+            elif ins.op == "call" and ins.callee in P.functions and P.own(P.functions[ins.callee]):
+                h = P.functions[ins.callee]
+                for b in range(h.nblocks):
+                    t = h.term_inst(b)
+                    if t.op == "ret" and t.a and counter_guarded(h, P.strip(h, t.a[0])):
+                        hit = True
+        return hit
     for c in cf.calls("alloc_fetch"):
-        lv, _ = Q.leaves(P, cf, c.a[2], through_loads=False)
-        for l in lv:
-            if l[0] == "call":
-                count_src.add(l[1])
-            elif l[0] == "op":
-                for x in Q.subterms(l):
-                    if x[0] == "call":
-                        count_src.add(x[1])
-    helper = count_src - {"cJSON_GetArraySize"}
-    for h in helper:
-        hf = P.fn("fetch.c:" + h, required=False)
-        if hf is not None:
-            hcalls = {P.srcname_of(c.callee) for c in hf.calls() if c.callee}
-            if hcalls & fill_skip:
-                same_pred = True
+        v = P.strip(cf, c.a[2])
+        if counter_guarded(cf, v):
+            same_pred = True
+        if False:
+            # follow to the loop-carried counter
+            seen = set()
+            st = [v]
+            while st:
+                x = st.pop()
+                if not isinstance(x, int) or x in seen or x < cf.nparams:
+                    continue
+                seen.add(x)
+                ins = cf.insts[x]
+                if ins.op == "phi":
+                    st.extend(P.strip(cf, y) for y, _ in ins.inc)
+                elif ins.op == "add" and P.const_int(ins.a[1]) == 1:
+                    if guard_callees(cf, ins.block) & fill_guards:
+                        same_pred = True
+                    st.append(P.strip(cf, ins.a[0]))
     refuse_dup = False
     ok = guarded or eq_gate or same_pred
     ctx.ob("C16.6 R-NULL", sm, "matcher-slots-complete", ok,
